@@ -9,6 +9,7 @@ BAD_UNITS = ["", "bq", "Kg", "sec", "readable", "activity_frac", "kgs", "µg", "
 BAD_ROWS = ["H-3", "H-3,1.0,num,extra", "Xx-3,1.0", "H-3,abc", "H-3,-1.0", "H-3,nan", ",1.0", "H-3,1.0,parsecs", "99,1.0",
             "He-3,1.0,Bq", "862220010,1.0"]
 STABLE = ["He-3", "Pb-208", "N-14"]
+BAD_TIME_UNITS = ["", "S", "Y", "sec ", "minutes", "w", "Ky", "Bq", "kg", "bogus", "readable ", "µs"]
 
 
 def expected(label):
@@ -27,7 +28,7 @@ def expected(label):
 
 def run(ctx, rng, streams, viol, samples):
     res = U.run_impl("impl_entry.py", {"bad_strings": BAD_STRINGS, "bad_ids": BAD_IDS, "bad_units": BAD_UNITS,
-                                       "bad_rows": BAD_ROWS, "stable": STABLE}, timeout=1800)
+                                       "bad_rows": BAD_ROWS, "stable": STABLE, "bad_time_units": BAD_TIME_UNITS}, timeout=1800)
     bad = []
     kinds = {}
     for label, outcome, detail in res:
